@@ -156,8 +156,9 @@ def relative_error(lat, lon, var1, var2, cov12):
     # relative error ellipse [smaj, smin, brg]
     ree = error_ellipse(rel_var)
 
-    # relative up error
-    rue = rel_var[2, 2] ** 0.5
+    # relative up error (a zero up variance can come out slightly negative
+    # through rounding)
+    rue = max(rel_var[2, 2], 0.0) ** 0.5
 
     return ree[0], ree[1], ree[2], rue
 
